@@ -238,6 +238,33 @@ def run(ctx):
             if why:
                 res.violation("I2-STEP", Q["Universe(vertices=)"], f"arg={form},repeats={len(vp) - len(set(vp))}", f"Universe(vertices={list(vp)} given as {form}): {why}",
                               replay=f"from edgegraph.structure import *\nv, w = Vertex(), Vertex()\nsrc = [{', '.join(vp)}]\nn = Universe(vertices={'iter(src)' if form == 'iterator' else ('tuple(src)' if form == 'tuple' else 'src')})\nprint(n.vertices, v.universes, w.universes)")
+    # nested: a universe constructed with universes (and itself-like members) as its vertices
+    for form in ("list", "iterator"):
+        p = Pre(h, "Universe", (("v", "u"),), False)
+        arg = mk_arg(form, [p.O["u2"], p.O["v"], p.O["u2"]])
+        try:
+            out = h.call(h.cls("Universe"), vertices=arg)
+        except Unknown as u:
+            res.ob(False)
+            res.undecide(f"Universe(vertices=[u2, v, u2]) nested as {form}: {u}")
+            continue
+        m += 1
+        model = copy.deepcopy(p.pre)
+        model["universes"]["n"], model["members"]["n"] = [], []
+        for r in ("u2", "v", "u2"):
+            m_add(model, r, "n")
+        why = None
+        if out.kind != "return" or not isinstance(out.value, Obj):
+            why = f"constructor gives {out!r}"
+        else:
+            out.value.name = "n"
+            post = p.project({"n": out.value})
+            bad = i2_violations(post)
+            d = diff(post, model)
+            why = ("I2 broken: " + "; ".join(bad[:3])) if bad else ("; ".join(d[:3]) if d else None)
+        res.ob(why is None, sig=("Universe(vertices=nested)", form))
+        if why:
+            res.violation("I2-STEP", Q["Universe(vertices=)"], f"arg={form},nested-universes", f"Universe(vertices=[u2, v, u2]) where u2 and v are universes, given as {form}: {why}")
     res.rule("I2-CONSTRUCT", m)
     common.vacuity(res, "I2-STEP", 350)
     common.vacuity(res, "I2-CONSTRUCT", 20)
